@@ -8,6 +8,8 @@ package sqlite
 // directory (C18) and its managers can be called with the k-th database call failing (C09).
 
 import (
+	"context"
+	"errors"
 	"path/filepath"
 	"testing"
 	"time"
@@ -22,6 +24,7 @@ import (
 	"go.sia.tech/hostd/v2/host/contracts"
 	"go.sia.tech/hostd/v2/host/registry"
 	"go.sia.tech/hostd/v2/host/settings"
+	"go.sia.tech/hostd/v2/host/settings/pin"
 	"go.sia.tech/hostd/v2/host/storage"
 	"go.sia.tech/hostd/v2/index"
 	"go.sia.tech/hostd/v2/webhooks"
@@ -47,6 +50,17 @@ type verifNode struct {
 	accounts  *accounts.AccountManager
 	registry  *registry.Manager
 	webhooks  *webhooks.Manager
+	pins      *pin.Manager
+}
+
+// verifForex is an exchange-rate source that is never reachable: pinned settings are
+// stored and loaded, but never rewrite the host's prices behind the harness's back
+type verifForex struct{}
+
+var errVerifForex = errors.New("verif: no exchange rate source")
+
+func (verifForex) SiacoinExchangeRate(context.Context, string) (float64, error) {
+	return 0, errVerifForex
 }
 
 // verifNewChain creates an in-memory chain on the repository's test network.
@@ -113,6 +127,10 @@ func verifOpenNode(t testing.TB, dir string, hostKey types.PrivateKey, cm *chain
 	if err != nil {
 		t.Fatal("webhooks:", err)
 	}
+	n.pins, err = pin.NewManager(n.store, n.settings, verifForex{})
+	if err != nil {
+		t.Fatal("pin:", err)
+	}
 	if withIndex {
 		n.index, err = index.NewManager(n.store, cm, n.contracts, n.wallet, n.settings, n.volumes, index.WithBatchSize(batch))
 		if err != nil {
@@ -126,6 +144,7 @@ func (n *verifNode) Close() {
 	if n.index != nil {
 		n.index.Close()
 	}
+	n.pins.Close()
 	n.webhooks.Close()
 	n.registry.Close()
 	n.settings.Close()
